@@ -32,7 +32,7 @@ ASSUMPTIONS = [
     "label uniqueness across particles is judged only when no default label is configured (a configured label is shared by construction)",
     "when a non-negative default label is configured, all inserted particles share it and form one deletable group by the package's own definition; the particle-number clause is then not judged",
 ]
-REQUIRED = {"trials": 3000, "accepted_insertions": 300, "accepted_deletions": 200, "rejected_exchanges": 200, "label_arrays_checked": 5000, "default_label_insertions": 50, "template_checks": 1000, "composite_table_trials": 300}
+REQUIRED = {"accepted_insertions_of_another_size": 20, "trials": 3000, "accepted_insertions": 300, "accepted_deletions": 200, "rejected_exchanges": 200, "label_arrays_checked": 5000, "default_label_insertions": 50, "template_checks": 1000, "composite_table_trials": 300}
 SHARD_TIMEOUT = {"quick": 900, "thorough": 3000}
 
 
@@ -118,6 +118,7 @@ def run_one(rec: Rec, spec, steps, tag):
         exch_reset()
         if composite:
             rec.count("composite_table_trials")
+        pre_size = st.pop("pre_size", None)
         b, a = t.before, t.after
         ub, ua = b["uid"], a["uid"]
         gone = [int(u) for u in ub if u >= 0 and u not in set(ua.tolist())]
@@ -142,11 +143,15 @@ def run_one(rec: Rec, spec, steps, tag):
         if t.verdict is True:
             if new_rows:
                 kind = "insertion"
-                if len(new_rows) % tsize:
-                    krec.viol("C05/partial-template-inserted", f"{len(new_rows)} atoms appeared, template has {tsize}", wit)
+                psize = tsize
+                if pre_size and len(new_rows) == pre_size:
+                    psize = pre_size  # the pre-selected particle of another size was inserted (whole)
+                    rec.count("accepted_insertions_of_another_size")
+                if len(new_rows) % psize:
+                    krec.viol("C05/partial-template-inserted", f"{len(new_rows)} atoms appeared, the particle to insert has {psize}", wit)
                 arr = mc.atoms.arrays["qv_uid"]
-                for c in range(0, len(new_rows), tsize):
-                    chunk = new_rows[c : c + tsize]
+                for c in range(0, len(new_rows), psize):
+                    chunk = new_rows[c : c + psize]
                     pid = ("ins", st["next_uid"])
                     for r in chunk:
                         arr[r] = st["next_uid"]
@@ -242,7 +247,27 @@ def run_one(rec: Rec, spec, steps, tag):
         rec.sample({**wit, "kind": kind, "natoms": natoms, "N_exch": int(mc.number_of_exchange_particles)}, cap=3)
 
     try:
-        trace(mc, steps, snap=snap, on_trial=on_trial, resnap=True)
+        pre_rng = np.random.default_rng(spec["seed"] % 2**32)
+
+        def at_yield(m, name):
+            """Now and then a second species through the documented to_add_atoms hook: a particle with another number of
+            atoms than the exchange template, pre-selected on a plain exchange move that is about to run."""
+            st.pop("pre_size", None)
+            entry = mc.moves.get(name)
+            if entry is None or pre_rng.random() > 0.12:
+                return
+            mv = entry.move
+            if not hasattr(mv, "to_add_atoms") or hasattr(mv, "moves"):
+                return
+            from ase import Atoms as _Atoms
+
+            other = _Atoms("CO", positions=[[0, 0, 0], [0, 0, 1.1]]) if tsize == 1 else _Atoms("Ar")
+            other.set_array("qv_uid", -np.ones(len(other), dtype=int))
+            mv.to_add_atoms = other
+            st["pre_size"] = len(other)
+            rec.count("preselected_insertions_of_another_size")
+
+        trace(mc, steps, snap=snap, on_trial=on_trial, resnap=True, at_yield=at_yield)
     except Exception as ex:  # noqa: BLE001
         if exch_finding_applies():
             st["two_exchanges_in_plain_composite"] = True
